@@ -108,7 +108,7 @@ class EvaluationBudgetExceeded(RuntimeError):
     enumerated case is below 6 000; the step-size control of a pair of the stated orders cannot need 50x that)"""
 
 
-EVAL_BUDGET = 300000
+EVAL_BUDGET = 100000
 
 
 class Spy:
